@@ -236,3 +236,7 @@ fn decode_packet_number(
 
     PacketNumber::from_varint(candidate_pn, space)
 }
+
+#[cfg(all(aws_s2n_quic_verif, test))]
+#[path = "/verif/harness/core/pn.rs"]
+mod verif;
